@@ -303,8 +303,11 @@ def n1_strip(text):
                         e += 1
                     if e < len(toks) and toks[e].text == ';':
                         close = e
-                    edits.append((t.start, toks[close].end, ''))
-                    recs.append(dict(rule='N1', before=text[t.start:toks[close].end], after=''))
+                        rep = ''
+                    else:
+                        rep = '()'     # the macro call is used as an expression (e.g. a match arm): its value is ()
+                    edits.append((t.start, toks[close].end, rep))
+                    recs.append(dict(rule='N1', before=text[t.start:toks[close].end], after=rep))
                     k = close
         k += 1
     return apply_edits(text, edits), recs
